@@ -7,6 +7,8 @@ CONSTANTS
   PinD8 = FALSE
   PinD12 = FALSE
   PinD18 = FALSE
+  WithFault = FALSE
+  PinD7 = FALSE
   Emit = FALSE
 INVARIANT Faithful
 CHECK_DEADLOCK FALSE
